@@ -104,5 +104,19 @@ def WNtab (G : CFG σ K) (keys : List (σ × List σ)) : Nat → Tab σ K
   | 0 => []
   | n+1 => tabStep G keys (WNtab G keys n)
 
+/-! ### table evaluation of `ZN` -/
+def zget (z : List (σ × K)) (X : σ) : K :=
+  match z.find? (fun e => e.1 = X) with
+  | some e => e.2
+  | none => 0
+
+def znStep (G : CFG σ K) (z : List (σ × K)) : List (σ × K) :=
+  (heads G).map fun X => (X, lsum ((G.rules.filter (fun r => r.head = X)).map fun r =>
+    r.w * lprod (r.body.map fun y => if y ∈ G.V then 1 else zget z y)))
+
+def ZNtab (G : CFG σ K) : Nat → List (σ × K)
+  | 0 => []
+  | n+1 => znStep G (ZNtab G n)
+
 end
 end Genlm
